@@ -366,7 +366,7 @@ func c14Messages(c *Ctx) {
 			slot := "return#" + itoa(k+1)
 			switch {
 			case d == "template":
-				c.Check(len(atoms) == 1 && atoms[0] == "len(fmtArgs) == 0", "R14.4", gm.String(), "template-verbatim", r.Pos(), "without arguments the template is the message verbatim (guards %v)", atoms)
+				c.Check(containsS(atoms, "len(fmtArgs) == 0"), "R14.4", gm.String(), "template-verbatim", r.Pos(), "without arguments the template is the message verbatim (guards %v)", atoms)
 			case d == "Sprintf(template, fmtArgs)":
 				c.Check(containsS(atoms, "len(fmtArgs) > 0"), "R14.4", gm.String(), "sprintf", r.Pos(), "with arguments and a template the message is fmt.Sprintf(template, args...)")
 			case d == "Sprint(fmtArgs)" || strings.HasSuffix(d, ".(string)?#0"):
